@@ -291,21 +291,26 @@ theorem inplace_chain_spec (p y n x : Nat) :
 
 /-! ## Normalisation discipline of the secp256k1 base-field wrapper -/
 
-/-- `k256/base_field.rs` (method bodies re-parsed from the source on every run): every method
-except the constructor from a caller-supplied `k256::FieldElement` is *safe* — on the weakly
-normalised values the wrapper stores (magnitude ≤ 1, normalised or not: results of `invert`,
-`sqrt`, `sqrt_ratio`, `conditional_select`) no magnitude / normalisation requirement of k256 can
-be violated, predicates and comparisons only ever see normalised values, and the stored result
-has magnitude ≤ 1 again; and `Sum` (a fold of the normalising `+`) never exceeds magnitude 1
+/-- `k256/base_field.rs` (method bodies re-parsed from the source on every run): EVERY method is
+*safe* — on the weakly normalised values the wrapper stores (magnitude ≤ 1, normalised or not:
+results of `invert`, `sqrt`, `sqrt_ratio`, `conditional_select`) no magnitude / normalisation
+requirement of k256 can be violated, predicates and comparisons only ever see normalised values,
+and the stored result has magnitude ≤ 1 again; the one constructor that takes a caller-supplied
+lazy `k256::FieldElement` (`From<k256::FieldElement>`, repaired in /repo 0cce575) normalises it,
+whatever its magnitude; and `Sum` (a fold of the normalising `+`) never exceeds magnitude 1
 whatever the length. A method that stops normalising, or a `Sum`/`Product` that accumulates on
 the lazy inner type, is classified `unknown` by the translator and breaks this theorem. -/
 theorem k256_wrapper_normalisation_discipline :
-    (Gen.K256Wrapper.bodies.filter (fun r => !(KBody.ofGen r).safe)).map (·.1) =
+    (Gen.K256Wrapper.bodies.filter (fun r => !(KBody.ofGen r).safe)).map (·.1) = [] ∧
+    (Gen.K256Wrapper.bodies.filter (fun r => r.2.1 = "foreignNorm")).map (·.1) =
       ["From<k256::FieldElement>::from"] ∧
+    (Gen.K256Wrapper.bodies.filter (fun r => r.2.1 = "foreign")).map (·.1) = [] ∧
+    (∀ a b : KMag, KBody.foreignNorm.run a b = some ⟨1, true⟩) ∧
     (Gen.K256Wrapper.bodies.filter (fun r => r.2.1 = "foldOp")).map (·.1) =
       ["Sum::sum", "Sum<&Fp>::sum", "Product::product", "Product<&Fp>::product"] ∧
     ∀ n acc, acc.mag ≤ 1 → ∃ r, kFoldNormalising n acc = some r ∧ r.mag ≤ 1 :=
-  ⟨by decide +kernel, by decide +kernel, kFoldNormalising_ok⟩
+  ⟨by decide +kernel, by decide +kernel, by decide +kernel, fun _ _ => rfl, by decide +kernel,
+   kFoldNormalising_ok⟩
 
 /-- Why seeded defect C10-2 is a defect: accumulating `n + 1` terms on the lazy inner type
 (`k256::FieldElement::sum`) and normalising once violates k256's magnitude bound exactly when
@@ -316,13 +321,15 @@ theorem k256_lazy_sum_overflows (n : Nat) (b : Bool) :
   show 2047 < 1 + n ↔ 2047 ≤ n
   omega
 
-/-- KNOWN FINDING (`k256.Fp:from-unnormalized`): `impl From<k256::FieldElement> for Fp` stores the
-caller's lazily reduced element without normalising it; on a magnitude-2 value (`a + a`) the
-wrapper's `-x`, `y - x` and, from magnitude 9, `x * y` violate k256's requirements (`none`),
-while `x + y` is still fine. -/
-theorem k256_from_unnormalized_defect :
-    (Gen.K256Wrapper.bodies.filter (fun r => r.2.1 = "foreign")).map (·.1) =
-      ["From<k256::FieldElement>::from"] ∧
+/-- FIXED FINDING (`k256.Fp:from-unnormalized`, /repo 0cce575), statement about the PINNED
+behaviour only: the body `Self(fe)` of `impl From<k256::FieldElement> for Fp` (model
+`KBody.foreign`: the caller's lazily reduced element is stored as is) is not safe — on a
+magnitude-2 value (`a + a`) the wrapper's `-x`, `y - x` and, from magnitude 9, `x * y` violate
+k256's requirements (`none`), while `x + y` is still fine. The repaired body is
+`KBody.foreignNorm` (see `k256_wrapper_normalisation_discipline`). -/
+theorem pinned_k256_from_unnormalized_defect :
+    KBody.foreign.safe = false ∧
+    KBody.foreign.run ⟨2, false⟩ ⟨1, true⟩ = some ⟨2, false⟩ ∧
     (KBody.normUn "neg").run ⟨2, false⟩ ⟨1, true⟩ = none ∧
     (KBody.normBin "-").run ⟨1, true⟩ ⟨2, false⟩ = none ∧
     (KBody.normBin "*").run ⟨9, false⟩ ⟨1, true⟩ = none ∧
